@@ -13,6 +13,7 @@ LEVEL_TEXT = (
     "all query entry points cross-checks that no reachable function takes a mutable store or calls a Storage writer. "
     "What a contract's querier reads is decided by provenance: the base of the contract's own cache (current "
     "transaction view); App's querier reads App.storage (committed state)."
+    " (R5) Sub-messages run in a cache layer of their own (C02.R1 under C10's id), so a query from a reply that absorbs a failure does not see what the failed sub-message wrote."
 )
 EXPLANATION = LEVEL_TEXT
 TRUSTED = ["rustc type and borrow checker (shared references cannot be used to write; no unsafe in the crate)",
